@@ -92,7 +92,7 @@ def tla_set(items):
     return '{' + ', '.join(items) + '}'
 
 
-def tla_constants(wb, pool, src, name):
+def tla_constants(wb, pool, src, name, lists=(), settable=None):
     """text of an MC module binding Engine's constants for this workbook"""
     n = nodes(wb)
     defs = []
@@ -130,6 +130,8 @@ MCAliases == {tla_set(map(q, n['aliases']))}
 MCDef == {(' @@ ' + chr(10) + '  ').join(defs)}
 MCInit0 == {init0}
 MCPool == {tla_set(tla_val(v) for v in pool)}
+MCSettable == {tla_set(map(q, sorted(wb['inputs']) if settable is None else settable))}
+MCLists == {tla_set(tla_seq(map(q, l)) for l in lists)}
 MCSrc == "{src}"
 ====
 '''
@@ -143,6 +145,8 @@ ENGINE_CFG = '''CONSTANTS
   Def <- MCDef
   Init0 <- MCInit0
   Pool <- MCPool
+  Lists <- MCLists
+  Settable <- MCSettable
   Src <- MCSrc
 SPECIFICATION Spec
 VIEW view
@@ -224,6 +228,34 @@ WORKBOOKS = {
                   'C2': ('Idx', 'A1:B2', 2, 2), 'D1': ('Cat', 'C2')},
         ranges={'A1:B2': [['A1', 'B1'], ['A2', 'B2']]}),
 }
+
+# C05: the same workbooks with observer ranges (rectangles and unbounded
+# rows/columns nobody depends on) so that every access path is an action
+WORKBOOKS_OBS = {
+    'chain_obs': dict(
+        inputs={'A1': 1, 'A2': 2, 'B2': None},
+        formulas={'B1': ('Plus', ['A1', 'A2'], 1), 'C1': ('Cat', 'B1'),
+                  'D1': ('Cat', 'A1')},
+        ranges={'A1:B2': [['A1', 'B1'], ['A2', 'B2']],
+                'A1:D1': [['A1', 'B1', 'C1', 'D1']],
+                'A1:A2': [['A1'], ['A2']]},
+        aliases={'1:1': 'A1:D1', 'A:A': 'A1:A2'}),
+    'nested_obs': dict(
+        inputs={'A1': 1, 'A2': 'a', 'C2': None, 'D2': None},
+        formulas={'B1': ('Plus', ['A1'], 1), 'B2': ('SumR', 'A1:A2'),
+                  'C1': ('SumR', 'B1:B2'), 'D1': ('Cat', 'C1')},
+        ranges={'A1:A2': [['A1'], ['A2']], 'B1:B2': [['B1'], ['B2']],
+                'A1:D2': [['A1', 'B1', 'C1', 'D1'], ['A2', 'B2', 'C2', 'D2']]},
+        aliases={'B:B': 'B1:B2', '2:2': 'A2:D2'}),
+    'cse_obs': dict(
+        inputs={'A1': 1, 'A2': 2},
+        formulas={'E1': ('Plus', ['D1', 'D2'], 0)},
+        ranges={'A1:A2': [['A1'], ['A2']], 'D1:E2': [['D1', 'E1'], ['D2', 'E2']]},
+        cse={'D1:D2': ('A1:A2', 2)},
+        aliases={'D:D': 'D1:D2'}),
+}
+WORKBOOKS_OBS['cse_obs']['inputs']['E2'] = None
+WORKBOOKS_OBS['nested_obs']['ranges']['A2:D2'] = [['A2', 'B2', 'C2', 'D2']]
 
 POOL_QUICK = [None, 0, 1, True, 'a']
 POOL_FULL = [None, 0, 1, 2, False, True, 'a', '']
